@@ -876,11 +876,26 @@ pub fn gen_attribute(rng: &mut Rng, cfg: &GenCfg, idx: usize) -> AttributeValue<
         "bodystructure" => AttributeValue::BodyStructure(gen_body_structure(rng, cfg, 0)),
         "envelope" => AttributeValue::Envelope(Box::new(gen_envelope(rng, cfg))),
         "flags" => AttributeValue::Flags(gen_flag_list(rng, cfg)),
-        "internaldate" => AttributeValue::InternalDate(if rng.chance(2, 3) {
-            Cow::Borrowed(*rng.pick(&["17-Jul-1996 02:44:25 -0700", " 1-Jan-2020 00:00:00 +0000", "NIL", ""]))
-        } else {
-            cow_str(gen_utf8(rng, cfg))
-        }),
+        "internaldate" => {
+            // RFC 3501 date-time: date-day-fixed "-" date-month "-" date-year SP time SP zone, where
+            // date-day-fixed is (SP DIGIT) / 2DIGIT - a stricter parser than the crate's (which keeps
+            // any string) must still accept everything this generator sends
+            const MONTHS: &[&str] = &["Jan", "Feb", "Mar", "Apr", "May", "Jun", "Jul", "Aug", "Sep", "Oct", "Nov", "Dec"];
+            let day = rng.range(1, 28);
+            let day_s = if day < 10 { format!(" {}", day) } else { format!("{}", day) };
+            let zone = format!("{}{:02}{:02}", if rng.bool() { '+' } else { '-' }, rng.range(0, 13), *rng.pick(&[0u64, 30, 45]));
+            let d = format!(
+                "{}-{}-{:04} {:02}:{:02}:{:02} {}",
+                day_s,
+                rng.pick(MONTHS),
+                rng.range(1970, 2099),
+                rng.range(0, 23),
+                rng.range(0, 59),
+                rng.range(0, 59),
+                zone
+            );
+            AttributeValue::InternalDate(Cow::Owned(d))
+        }
         "modseq" => AttributeValue::ModSeq(gen_u64(rng)),
         "rfc822" => AttributeValue::Rfc822(opt_bytes(rng, cfg)),
         "rfc822header" => AttributeValue::Rfc822Header(opt_bytes(rng, cfg)),
